@@ -149,15 +149,19 @@ def match_known(property_id: str, key: str, findings: List[Dict[str, Any]]) -> O
     return None
 
 
+# Mutation runs (VERIF_REPO=<scratch worktree> VERIF_OUT=<dir>) must not overwrite the evidence of the real tree.
+_OUT = pathlib.Path(os.environ["VERIF_OUT"]) if os.environ.get("VERIF_OUT") else VERIF
+
+
 def write_evidence(property_id: str, doc: Dict[str, Any]) -> None:
-    d = VERIF / "evidence"
-    d.mkdir(exist_ok=True)
+    d = _OUT / "evidence"
+    d.mkdir(exist_ok=True, parents=True)
     (d / f"{property_id}.json").write_text(json.dumps(doc, indent=1, ensure_ascii=True) + "\n")
 
 
 def write_replay(property_id: str, doc: Dict[str, Any]) -> str:
-    d = VERIF / "replays"
-    d.mkdir(exist_ok=True)
+    d = _OUT / "replays"
+    d.mkdir(exist_ok=True, parents=True)
     h = hashlib.sha256(json.dumps(doc, sort_keys=True).encode()).hexdigest()[:12]
     p = d / f"{property_id}-{h}.json"
     p.write_text(json.dumps(doc, indent=1, ensure_ascii=True) + "\n")
